@@ -584,6 +584,29 @@ func checkTable(c TableCase) error {
 		if err := compareTableAfterTrim(tb, m); err != nil {
 			return fmt.Errorf("after Trim(%s %q <%d %%%d): %v", c.Trim.Kind, c.Trim.Names, c.Trim.Thresh, c.Trim.Mod, err)
 		}
+		// min/max are defined over the cells the table holds (absent = 0): after the trim that is the
+		// remaining grid (spark trims and then scales by these two numbers). They were read before the
+		// trim as well (compareTable after the last sample), so a remembered answer is seen here.
+		var wmin, wmax int64
+		first := true
+		for rn := range m.cells {
+			for cn := range m.cols {
+				v := int64(0)
+				if m.cells[rn][cn] != nil {
+					v = wrap64(m.cells[rn][cn])
+				}
+				if first || v < wmin {
+					wmin = v
+				}
+				if first || v > wmax {
+					wmax = v
+				}
+				first = false
+			}
+		}
+		if gmin, gmax := tb.ComputeMinMax(); gmin != wmin || gmax != wmax {
+			return fmt.Errorf("after Trim(%s %q <%d %%%d): ComputeMinMax=(%d,%d), remaining grid with absent=0 gives (%d,%d)", c.Trim.Kind, c.Trim.Names, c.Trim.Thresh, c.Trim.Mod, gmin, gmax, wmin, wmax)
+		}
 	}
 	return nil
 }
@@ -994,6 +1017,11 @@ var groupPool = []struct {
 	{"gw", "{0}", func(p []string, w string) string { return w }},
 	{"gc", "const", func(p []string, w string) string { return "const" }},
 	{"gu", "{upper {1}}", func(p []string, w string) string { return strings.ToUpper(part(p, 1)) }},
+	// a group is chosen before any row exists for the sample: column names and the accumulator read as
+	// empty in a group expression, whatever rows earlier samples went into
+	{"gk", "{1}{count}", func(p []string, w string) string { return part(p, 1) }},
+	{"gl", "{last}|{1}", func(p []string, w string) string { return "|" + part(p, 1) }},
+	{"gd", "{.}{2}{sum3}", func(p []string, w string) string { return part(p, 2) }},
 }
 
 var colPool = []colDef{
@@ -1084,7 +1112,7 @@ func checkAcc(c AccCase) error {
 func TestAccumulator(t *testing.T) {
 	pbt.Run(t, pbt.Spec[AccCase]{
 		Property: "C07", Name: "accumulator",
-		Rule:   "0..2 group expressions and 1..5 data expressions from a pool ({sumi {.} {3}}, {maxi {.} {3}}, count, last, references to other columns by name, string concatenation, initial values) over 0..40 NUL-joined samples vs. a hand-written fold per expression, compared after every sample; non-trivial: >=4 samples, >=2 groups formed, >=2 data columns",
+		Rule:   "0..2 group expressions (parts, whole element, constant, helper call, and expressions naming a data column or the accumulator, which read empty there) and 1..5 data expressions from a pool ({sumi {.} {3}}, {maxi {.} {3}}, count, last, references to other columns by name, string concatenation, initial values) over 0..40 NUL-joined samples vs. a hand-written fold per expression, compared after every sample; non-trivial: >=4 samples, >=2 groups formed, >=2 data columns",
 		Budget: pbt.Budget{Quick: 20000, Thorough: 600000},
 		Gen: func(t *rapid.T) AccCase {
 			c := AccCase{}
